@@ -4,9 +4,12 @@
 extern crate anoncreds;
 
 mod c13;
+mod c09;
 mod c16;
+mod world;
 mod c20;
 mod out;
+mod par;
 mod rng;
 mod sx;
 
@@ -25,6 +28,7 @@ fn main() {
     match prop {
         "C13" => c13::run(tier, seed, outdir),
         "C16" => c16::run(tier, seed, outdir),
+        "C09" => c09::run(tier, seed, outdir),
         "C20" => c20::run(tier, seed, outdir),
         _ => {
             eprintln!("unknown property {}", prop);
